@@ -8,7 +8,7 @@ import qv, hist, seqrun, common
 def run(tier, seed, replay):
     t = qv.Timer()
     rng = qv.Rng(seed)
-    gate = {'ok': True, 'obligations': 0, 'discharged': 0, 'failed': None, 'axioms': [], 'checker_cmd': '', 'gen': {}}
+    gate = common.proof_gate('C16', ['Model/Codec.v', 'Base/Bits.v', 'Proofs/Geometry.v', 'Proofs/AlignProps.v', 'Props/C16.v'])
     rc, out = qv.harness_build()
     if rc != 0:
         print(out[-3000:])
